@@ -8,7 +8,8 @@ package main
 //	tmcmapdir.decode bytes=<hex>            -> ok:<p.e.l:len:hash;...> | err:<malformed|version> | panic
 //	tmcmapdir.get bytes=<hex> key=p.e.l     -> err:decode | err:<nosuch|macenc|unsupported|sub> |
 //	                                           ok:f0:0:255 | ok:m16:<low>:<high> | ok:ext<format> | panic
-//	tmcmapdir.f0 bytes=<hex>                -> ok:<hex of the 256 bytes> | err | panic
+//	tmcmapdir.f0 bytes=<hex> mac=0          -> ok:<hex of the 256 bytes> | err | panic
+//	tmcmapdir.f0 bytes=0000<hex> mac=1      -> ok:<code:gid,...> | err | panic (MacRoman branch, via Table.Get key 1.0.0)
 //	tmcmapdir.f6 bytes=<hex> mac=<0|1>      -> ok:<code:gid,...> | err | panic
 //	tmcmapdir.lookup0 data=<hex256> r=<int> -> glyph (0 for negative runes and runes > 255)
 //	tmcmapdir.lookup16 map=<c:g,...> r=<int> -> glyph
@@ -110,7 +111,7 @@ func totalCmapdirGet(b []byte, key cmap.Key) string {
 		case *cmap.Format0:
 			return fmt.Sprintf("ok:f0:%d:%d", lo, hi)
 		case cmap.Format4:
-			if format == 6 {
+			if format == 6 || format == 0 { // format 0 under a Macintosh key decodes into a Format4 map
 				return fmt.Sprintf("ok:m16:%d:%d", lo, hi)
 			}
 		}
@@ -125,6 +126,36 @@ func totalCmapdirF0(b []byte) string {
 			return "err"
 		}
 		return "ok:" + hx(st.Data[:])
+	}))
+}
+
+// totalCmapdirF0Mac runs decodeFormat0 with the MacRoman code2rune: the hook VerifDecode0 only
+// passes nil, so the branch is reached through the exported Table.Get with the key (1,0,0);
+// the bytes must carry the format word 0 (Get dispatches on it).
+func totalCmapdirF0Mac(b []byte) string {
+	if len(b) < 2 || b[0] != 0 || b[1] != 0 {
+		return "bad-case"
+	}
+	return totalCanonPanic(guard(func() string {
+		key := cmap.Key{PlatformID: 1}
+		st, err := cmap.Table{key: b}.Get(key)
+		if err != nil {
+			return "err"
+		}
+		m, ok := st.(cmap.Format4)
+		if !ok {
+			return fmt.Sprintf("wrong-type:%T", st)
+		}
+		keys := make([]int, 0, len(m))
+		for k := range m {
+			keys = append(keys, int(k))
+		}
+		sort.Ints(keys)
+		parts := make([]string, len(keys))
+		for i, k := range keys {
+			parts[i] = fmt.Sprintf("%d:%d", k, m[uint16(k)])
+		}
+		return "ok:" + strings.Join(parts, ",")
 	}))
 }
 
@@ -424,7 +455,12 @@ func init() {
 	ops["tmcmapdir.get"] = func(f Fields) string {
 		return totalCmapdirGet(f.Hex("bytes"), totalCmapdirParseKey(f["key"]))
 	}
-	ops["tmcmapdir.f0"] = func(f Fields) string { return totalCmapdirF0(f.Hex("bytes")) }
+	ops["tmcmapdir.f0"] = func(f Fields) string {
+		if f["mac"] == "1" {
+			return totalCmapdirF0Mac(f.Hex("bytes"))
+		}
+		return totalCmapdirF0(f.Hex("bytes"))
+	}
 	ops["tmcmapdir.f6"] = func(f Fields) string { return totalCmapdirF6(f.Hex("bytes"), f["mac"] == "1") }
 	ops["tmcmapdir.lookup0"] = func(f Fields) string {
 		return totalCanonPanic(guard(func() string {
@@ -606,11 +642,26 @@ func init() {
 
 		// ---- decodeFormat0 ----
 		f0Case := func(b []byte, how string) {
-			g := c.Case(Verdict, "tmcmapdir.f0", "bytes="+hx(b), len(b) >= 6)
+			g := c.Case(Verdict, "tmcmapdir.f0", "bytes="+hx(b)+" mac=0", len(b) >= 6)
 			c.Stat("tmcmapdir:f0", totalCmapdirClass(g)+" "+how)
+			// the Macintosh branch (code2rune != nil), reachable for bytes with format word 0
+			if len(b) >= 2 && b[0] == 0 && b[1] == 0 {
+				g := c.Case(Verdict, "tmcmapdir.f0", "bytes="+hx(b)+" mac=1", len(b) >= 6)
+				c.Stat("tmcmapdir:f0mac", totalCmapdirClass(g)+" "+how)
+			}
 		}
 		for n := 0; n <= 12; n++ {
 			f0Case(make([]byte, n), "short")
+		}
+		{ // sparse tables: few non-zero glyphs, collisions impossible (MacRoman is injective)
+			for k := 0; k < 8; k++ {
+				b := make([]byte, 262)
+				b[2], b[3] = 1, 6
+				for i := r.Intn(6); i > 0; i-- {
+					b[6+Pick(r, []int{0, 1, 65, 127, 128, 129, 0xDB, 0xF0, 254, 255, r.Intn(256)})] = byte(r.Range(1, 255))
+				}
+				f0Case(b, "len=262 sparse")
+			}
 		}
 		for k := 0; k < budget/2; k++ {
 			n := Pick(r, []int{262, 262, 262, 261, 263, 6, 5, 256, 300, r.Intn(300)})
